@@ -60,3 +60,9 @@ V('C05', 'objtype-prop-named-source-skipped', 'edb/pgsql/delta.py', 'edb.pgsql.d
                     not isinstance(src.scls, s_links.Link)
                     or propname not in {'source', 'target'}
                 ):''', '''                if propname not in {'source', 'target'}:''', 'C05.R8', 'objtype-property-named-source')
+V('C05', 'delete-prop-skipped-on-type-drop', 'edb/pgsql/delta.py', 'edb.pgsql.delta.DeleteProperty._delete_innards',
+  '        if source and not prop.is_pure_computable(schema):', '        if (\n            source\n            and not prop.is_pure_computable(schema)\n            and not isinstance(source_op, s_objtypes.DeleteObjectType)\n        ):', 'C05.R9', 'DeleteProperty:storage-always-released')
+V('C05', 'dunder-names-need-suffix', T, 'edb.pgsql.types._source_table_info',
+  "    if ptr_name.startswith('__') or ptr_name == 'id':", "    if (ptr_name.startswith('__') and ptr_name.endswith('__')) or ptr_name == 'id':", 'C05.R6', 'column-name:ObjectType')
+V('C05', 'inheritance-view-no-link-bias', 'edb/pgsql/inheritance.py', 'edb.pgsql.inheritance._get_select_from',
+  '                    ptr,\n                    link_bias=isinstance(obj, s_links.Link),\n', '                    ptr,\n', 'C05.R9', '_get_select_from:link_bias')
